@@ -5,6 +5,7 @@ mod c05;
 mod c06;
 mod c07;
 mod c09;
+mod c16;
 mod tracegen;
 mod c17;
 mod c18;
@@ -52,6 +53,7 @@ fn main() {
     match prop.as_str() {
         "C01" | "C03" => c01::run(&mut ctx),
         "C02" | "C12" => c02::run(&mut ctx),
+        "C16" => c16::run(&mut ctx),
         "C17" => c17::run(&mut ctx),
         "C18" => c18::run(&mut ctx),
         "C05" => c05::run(&mut ctx),
